@@ -1,12 +1,13 @@
 import GdVerif.Run.Net
 import GdVerif.Proto.Eco
+import GdVerif.Spec.Eco
 /-
   Driver for the Eco entry.  The model (`Proto/Eco.lean`) starts at the `Info` value; what turns the JSON text into
   that value in the real code is serde_json + the serde derive of `Root` / `Info`, which are parameters of the
   model.  For the correspondence check the driver needs a concrete instance of that parameter: this file is a
-  mirror of `serde_json::from_reader::<Root>` (serde_json 1.0.x without `float_roundtrip`: typed, single pass —
-  strict strings at typed positions, lenient skipping of unknown members, its number grammar and its
-  `f64_from_parts`).  No theorem depends on anything here; it is validated by the tie on every run.
+  mirror of `serde_json::from_reader::<Root>` (serde_json 1.0.x with `float_roundtrip`: typed, single pass —
+  strict strings at typed positions, lenient skipping of unknown members, its number grammar, correctly rounded
+  doubles = `Spec.nearestDouble`).  No theorem depends on anything here; it is validated by the tie on every run.
   `none` = any serde_json error (the real code maps them all to `ProtocolFormat`).
 -/
 namespace Gd.Run.EcoJson
@@ -84,151 +85,113 @@ partial def strIgnore : Bytes → Option Bytes
     else if c.toNat < 0x20 then none
     else strIgnore r
 
-/-! ### numbers -/
+/-! ### numbers
+
+serde_json with `float_roundtrip`: the grammar of RFC 8259; an integer literal that fits `u64` (or `i64` when
+negative) is an integer, everything else is the correctly rounded double of the exact decimal value; a value that
+rounds to infinity is an error; an exponent of more than 31 bits is an error for a positive exponent on a non-zero
+mantissa and denotes zero otherwise. -/
 
 def U64MAX : Nat := 2 ^ 64 - 1
 def I32MAX : Nat := 2 ^ 31 - 1
-
-/-- a natural number to the nearest double (ties to even); below 2^64 this is the hardware conversion -/
-def natToFloat (n : Nat) : Float :=
-  if n < 2 ^ 64 then n.toUInt64.toFloat
-  else
-    let s := n.log2 - 63
-    let top := n >>> s
-    let sticky := n % 2 ^ s != 0
-    ((if sticky then top ||| 1 else top).toUInt64.toFloat).scaleB s
-
-def pow10 (k : Nat) : Float := natToFloat (10 ^ k)
-
-/-- the loop of `f64_from_parts` (not(feature = "float_roundtrip")) -/
-partial def f64Loop (f : Float) (exponent : Int) : Option Float :=
-  if exponent.natAbs ≤ 308 then
-    if exponent ≥ 0 then
-      let f := f * pow10 exponent.natAbs
-      if f.isInf then none else some f
-    else some (f / pow10 exponent.natAbs)
-  else if f == 0.0 then some f
-  else if exponent ≥ 0 then none
-  else f64Loop (f / pow10 308) (exponent + 308)
-
-def f64FromParts (positive : Bool) (significand : Nat) (exponent : Int) : Option Float :=
-  (f64Loop significand.toUInt64.toFloat exponent).map fun f => if positive then f else -f
 
 def skipDigits : Bytes → Bytes
   | c :: r => if isDig c then skipDigits r else c :: r
   | [] => []
 
-/-- the digit loop of `parse_exponent` -/
-partial def expLoop (positive : Bool) (significand : Nat) (startingExp : Int) (positiveExp : Bool) (exp : Nat)
-    (r : Bytes) : Option (Float × Bytes) :=
-  let finish : Option (Float × Bytes) :=
-    let finalExp := if positiveExp then startingExp + exp else startingExp - exp
-    (f64FromParts positive significand finalExp).map fun f => (f, r)
-  match r with
-  | c :: r' =>
-    if isDig c then
-      if exp * 10 + dig c > I32MAX then
-        -- `parse_exponent_overflow`
-        if significand != 0 && positiveExp then none
-        else some (if positive then 0.0 else -0.0, skipDigits r')
-      else expLoop positive significand startingExp positiveExp (exp * 10 + dig c) r'
-    else finish
-  | [] => finish
-
-/-- `parse_exponent` (the input starts at the `e`) -/
-def parseExponent (positive : Bool) (significand : Nat) (startingExp : Int) (inp : Bytes) : Option (Float × Bytes) :=
-  match inp with
-  | _ :: r =>
-    let (positiveExp, r) := match r with
-      | 43 :: r => (true, r)
-      | 45 :: r => (false, r)
-      | r => (true, r)
-    match r with
-    | c :: r => if !isDig c then none else expLoop positive significand startingExp positiveExp (dig c) r
-    | [] => none
-  | [] => none
+/-- leading digits: their value and how many there are -/
+def digits (acc n : Nat) : Bytes → Nat × Nat × Bytes
+  | c :: r => if isDig c then digits (acc * 10 + dig c) (n + 1) r else (acc, n, c :: r)
+  | [] => (acc, n, [])
 
 def isE (c : UInt8) : Bool := c == 101 || c == 69
 
-/-- `parse_decimal` (the input starts at the `.`) -/
-partial def parseDecimal (positive : Bool) (significand : Nat) (expBefore : Int) (inp : Bytes) : Option (Float × Bytes) :=
-  let rec loop (significand : Nat) (expAfter : Int) (r : Bytes) : Option (Float × Bytes) :=
-    match r with
-    | c :: r' =>
-      if isDig c then
-        if significand * 10 + dig c > U64MAX then
-          -- `parse_decimal_overflow`: the remaining digits are ignored
-          let r'' := skipDigits r
-          match r'' with
-          | e :: _ => if isE e then parseExponent positive significand (expBefore + expAfter) r''
-                      else (f64FromParts positive significand (expBefore + expAfter)).map fun f => (f, r'')
-          | [] => (f64FromParts positive significand (expBefore + expAfter)).map fun f => (f, r'')
-        else loop (significand * 10 + dig c) (expAfter - 1) r'
-      else done significand expAfter r
-    | [] => done significand expAfter r
-  loop significand 0 (inp.drop 1)
-where
-  done (significand : Nat) (expAfter : Int) (r : Bytes) : Option (Float × Bytes) :=
-    if expAfter == 0 then none
-    else
-      match r with
-      | e :: _ => if isE e then parseExponent positive significand (expBefore + expAfter) r
-                  else (f64FromParts positive significand (expBefore + expAfter)).map fun f => (f, r)
-      | [] => (f64FromParts positive significand (expBefore + expAfter)).map fun f => (f, r)
+structure NumLit where
+  positive : Bool
+  /-- all digits of the integer and fraction parts -/
+  m : Nat
+  /-- power of ten -/
+  e : Int
+  /-- no fraction and no exponent -/
+  plain : Bool
+  /-- the exponent did not fit 31 bits; the flag is its sign -/
+  expOverflow : Option Bool
 
-/-- `parse_long_integer` (not(feature = "float_roundtrip")): further integer digits only scale -/
-partial def parseLongInteger (positive : Bool) (significand : Nat) (exponent : Int) (r : Bytes) : Option (Float × Bytes) :=
-  match r with
-  | c :: r' =>
-    if isDig c then parseLongInteger positive significand (exponent + 1) r'
-    else if c == 46 then parseDecimal positive significand exponent r
-    else if isE c then parseExponent positive significand exponent r
-    else (f64FromParts positive significand exponent).map fun f => (f, r)
-  | [] => (f64FromParts positive significand exponent).map fun f => (f, r)
-
-inductive PNum | u64 (n : Nat) | i64 (n : Int) | f64 (f : Float)
-
-/-- `parse_number` -/
-def parseNumber (positive : Bool) (significand : Nat) (r : Bytes) : Option (PNum × Bytes) :=
-  let plain : Option (PNum × Bytes) :=
-    if positive then some (.u64 significand, r)
-    else if significand == 0 then some (.f64 (-0.0), r)
-    else if significand ≤ 2 ^ 63 then some (.i64 (-(significand : Int)), r)
-    else some (.f64 (-(significand.toUInt64.toFloat)), r)
-  match r with
-  | c :: _ =>
-    if c == 46 then (parseDecimal positive significand 0 r).map fun (f, r) => (.f64 f, r)
-    else if isE c then (parseExponent positive significand 0 r).map fun (f, r) => (.f64 f, r)
-    else plain
-  | [] => plain
-
-/-- `parse_integer` (after the optional minus sign) -/
-partial def parseInteger (positive : Bool) : Bytes → Option (PNum × Bytes)
-  | [] => none
+/-- the exponent digits after the first: `none` = overflow of `i32` -/
+def expDigits (exp : Nat) : Bytes → Option Nat × Bytes
   | c :: r =>
-    if c == 48 then
-      match r with
-      | d :: _ => if isDig d then none else parseNumber positive 0 r
-      | [] => parseNumber positive 0 r
-    else if isDig c then
-      let rec loop (significand : Nat) (r : Bytes) : Option (PNum × Bytes) :=
-        match r with
-        | d :: r' =>
-          if isDig d then
-            if significand * 10 + dig d > U64MAX then
-              (parseLongInteger positive significand 0 r).map fun (f, r) => (.f64 f, r)
-            else loop (significand * 10 + dig d) r'
-          else parseNumber positive significand r
-        | [] => parseNumber positive significand r
-      loop (dig c) r
-    else none
+    if isDig c then
+      if exp * 10 + dig c > I32MAX then (none, skipDigits r) else expDigits (exp * 10 + dig c) r
+    else (some exp, c :: r)
+  | [] => (some exp, [])
 
-/-- any number at a typed position: `-` or a digit must come next -/
-def number (inp : Bytes) : Option (PNum × Bytes) :=
-  match skipWs inp with
-  | 45 :: r => parseInteger false r
-  | c :: r => if isDig c then parseInteger true (c :: r) else none
+/-- a number literal (after white space): `-`? int frac? exp? -/
+def scanNumber (inp : Bytes) : Option (NumLit × Bytes) :=
+  let (positive, r) := match inp with
+    | 45 :: r => (false, r)
+    | r => (true, r)
+  match r with
   | [] => none
+  | c :: r' =>
+    if !isDig c then none
+    else
+      -- integer part: a single 0, or digits not starting with 0
+      let intPart : Option (Nat × Bytes) :=
+        if c == 48 then
+          match r' with
+          | d :: _ => if isDig d then none else some (0, r')
+          | [] => some (0, r')
+        else let (v, _, r'') := digits 0 0 r; some (v, r'')
+      match intPart with
+      | none => none
+      | some (iv, r) =>
+        -- fraction
+        let frac : Option (Nat × Nat × Bytes × Bool) :=
+          match r with
+          | 46 :: r' =>
+            let (v, n, r'') := digits iv 0 r'
+            if n == 0 then none else some (v, n, r'', true)
+          | _ => some (iv, 0, r, false)
+        match frac with
+        | none => none
+        | some (m, nfrac, r, hasFrac) =>
+          match r with
+          | c :: r' =>
+            if isE c then
+              let (positiveExp, r') := match r' with
+                | 43 :: r' => (true, r')
+                | 45 :: r' => (false, r')
+                | r' => (true, r')
+              match r' with
+              | d :: r'' =>
+                if !isDig d then none
+                else
+                  match expDigits (dig d) r'' with
+                  | (some exp, rest) =>
+                    some (⟨positive, m, (if positiveExp then (exp : Int) else -(exp : Int)) - nfrac, false, none⟩, rest)
+                  | (none, rest) => some (⟨positive, m, 0, false, some positiveExp⟩, rest)
+              | [] => none
+            else some (⟨positive, m, -(nfrac : Int), !hasFrac, none⟩, r)
+          | [] => some (⟨positive, m, -(nfrac : Int), !hasFrac, none⟩, r)
+
+def decLen (n : Nat) : Nat := (toString n).length
+
+/-- the double a literal denotes, as its bit pattern; `none` = `NumberOutOfRange` -/
+def litBits (l : NumLit) : Option Nat :=
+  let sign := if l.positive then 0 else 2 ^ 63
+  match l.expOverflow with
+  | some positiveExp => if l.m != 0 && positiveExp then none else some sign
+  | none =>
+    if l.m == 0 then some sign
+    else
+      -- far outside the range of doubles: decided without building the power of ten
+      let mag : Int := (decLen l.m : Int) + l.e
+      if mag > 320 then none
+      else if mag < -340 then some sign
+      else
+        let v := if l.e ≥ 0 then Eco.Spec.nearestDouble (l.m * 10 ^ l.e.toNat) 1
+                 else Eco.Spec.nearestDouble l.m (10 ^ (-l.e).toNat)
+        v.map (sign + ·)
 
 /-! ### skipping a value of an unknown member (`ignore_value`) -/
 
@@ -324,17 +287,17 @@ def deBool (inp : Bytes) : Option (Bool × Bytes) :=
   | 102 :: r => (ident "alse" r).map fun r => (false, r)
   | _ => none
 
+/-- `u32`: only an integer literal that fits (a negative one, `-0` included, or any fraction / exponent is an
+invalid type) -/
 def deU32 (inp : Bytes) : Option (Nat × Bytes) :=
-  match number inp with
-  | some (.u64 n, r) => if n < 2 ^ 32 then some (n, r) else none
-  | _ => none
+  match scanNumber (skipWs inp) with
+  | some (l, r) => if l.positive && l.plain && l.m < 2 ^ 32 then some (l.m, r) else none
+  | none => none
 
-/-- `f64`: integers are converted (`as f64`) -/
+/-- `f64`: any number; integers are converted (`as f64`, the same rounding) -/
 def deF64 (inp : Bytes) : Option (Nat × Bytes) :=
-  match number inp with
-  | some (.u64 n, r) => some (n.toUInt64.toFloat.toBits.toNat, r)
-  | some (.i64 i, r) => some ((-(i.natAbs.toUInt64.toFloat)).toBits.toNat, r)
-  | some (.f64 f, r) => some (f.toBits.toNat, r)
+  match scanNumber (skipWs inp) with
+  | some (l, r) => (litBits l).map fun b => (b, r)
   | none => none
 
 def deString (inp : Bytes) : Option (Bytes × Bytes) :=
